@@ -22,7 +22,7 @@ func CompileToGetDecoder(typ *runtime.Type) (Decoder, error) {
 
 	index := (typeptr - typeAddr.BaseTypeAddr) >> typeAddr.AddrShift
 	decMu.RLock()
-	if dec := cachedDecoder[index]; dec != nil {
+	if dec := loadCachedDecoder(index); dec != nil {
 		decMu.RUnlock()
 		verifCacheReturn("fast-hit", typeptr, index, dec)
 		return dec, nil
@@ -36,7 +36,7 @@ func CompileToGetDecoder(typ *runtime.Type) (Decoder, error) {
 	}
 	verifCacheGate("publish", typeptr)
 	decMu.Lock()
-	cachedDecoder[index] = dec
+	storeCachedDecoder(index, dec)
 	decMu.Unlock()
 	verifCacheReturn("fast-compiled", typeptr, index, dec)
 	return dec, nil
